@@ -826,6 +826,28 @@ writeRuneToBuffer:
 	return nil
 }
 
+// finishTopLevel is called by the parser when the input has run dry
+// outside of any bracket. If the text ends inside a string, rune,
+// raw string or block comment it is unfinished and more input is
+// needed. Otherwise whatever is still pending (an atom, an operator,
+// a colon, a slash, a tilde, a line comment) is complete: flush it
+// exactly as a terminating newline would. produced reports whether
+// that made new tokens available.
+func (lexer *Lexer) finishTopLevel() (produced bool, unfinished bool, err error) {
+	switch lexer.state {
+	case LexerStrLit, LexerStrEscaped, LexerRuneLit, LexerRuneEscaped,
+		LexerBacktickString, LexerCommentBlock, LexerCommentBlockAsterisk:
+		return false, true, nil
+	case LexerNormal:
+		if lexer.buffer.Len() == 0 {
+			return false, false, nil
+		}
+	}
+	n := len(lexer.tokens)
+	err = lexer.LexNextRune('\n')
+	return len(lexer.tokens) > n, false, err
+}
+
 // extra should be 0 for 1 token lookahead;
 // extra can be 1 to load at least 2 tokens.
 func (lexer *Lexer) PeekNextToken(extra int) (tok Token, err error) {
